@@ -3,6 +3,7 @@ import LdkModel.Model.Punish
 import LdkModel.Model.JusticeChain
 import LdkModel.Generated.Package
 import LdkModel.Driver.Packages
+import LdkModel.Model.ScopeData
 namespace Ldk.Driver
 open Ldk Ldk.Secrets Ldk.Punish Ldk.Pkg
 
@@ -184,5 +185,56 @@ def c06justice : Drv where
     | ["rebc"] => chainStep .rebroadcast
     | ["reload"] => chainStep .reload
     | _ => (s, (PkgOps.pkgStep ws).getD "bad-op")     -- the package-layer ops (Driver/Packages.lean)
+
+/-! ### c06scope: the per-FundingScope commitment data of Model/ScopeData.lean (pending splices) -/
+
+/-- `funding/txid/htlc,…|-` -/
+def ctxOf (s : String) : Option ScopeData.CTx :=
+  match splitOnChar s '/' with
+  | [f, t, hs] => (listOf htlcOf hs).map fun l => { funding := nat! f, txid := nat! t, htlcs := l }
+  | _ => none
+
+def showHtlcs (l : List Htlc) : String :=
+  if l.isEmpty then "-" else ",".intercalate (l.map fun h =>
+    s!"{h.amtMsat}:{if h.offered then 1 else 0}:{h.cltv}:{match h.outIdx with | some i => toString i | none => "-"}")
+
+def insertByKey (x : Nat × List Htlc) : List (Nat × List Htlc) → List (Nat × List Htlc)
+  | [] => [x]
+  | y :: ys => if x.1 ≤ y.1 then x :: y :: ys else y :: insertByKey x ys
+
+/-- `F<funding>[<txid>=<htlcs>;…] …`, the locked scope first, entries sorted by txid -/
+def showScopes (m : ScopeData.Mon) : String :=
+  " ".intercalate (m.scopes.map fun s =>
+    s!"F{s.funding}[{";".intercalate ((s.claimable.foldr insertByKey []).map fun e => s!"{e.1}={showHtlcs e.2}")}]")
+
+/-- ops:  sreset <funding>                      a fresh monitor
+          scommit <funding/txid/htlcs> …        update_counterparty_commitment_data (one transaction per scope)
+          sreneg <funding/txid/htlcs>           renegotiated_funding
+          spromote <funding>                    promote_funding                                  → `ok` | `err`
+          sdump                                 → every scope's stored lists
+          sconfirm <funding> <txid> <sat,…>     → output indices of the HTLC claims when that commitment confirms -/
+def c06scope : Drv where
+  σ := ScopeData.Mon
+  init := ScopeData.Mon.init 0
+  step := fun m ws =>
+    let app (r : Option ScopeData.Mon) : ScopeData.Mon × String := match r with | some m' => (m', "ok") | none => (m, "err")
+    match ws with
+    | ["reset"] => (ScopeData.Mon.init 0, "ok")
+    | ["sreset", f] => (ScopeData.Mon.init (nat! f), "ok")
+    | "scommit" :: txs =>
+      match txs.mapM ctxOf with
+      | some ts => app (ScopeData.step m (.commit ts))
+      | none => (m, "bad-op")
+    | ["sreneg", t] =>
+      match ctxOf t with
+      | some alt => app (ScopeData.step m (.reneg alt))
+      | none => (m, "bad-op")
+    | ["spromote", f] => app (ScopeData.step m (.promote (nat! f)))
+    | ["sdump"] => (m, showScopes m)
+    | ["sconfirm", f, t, outs] =>
+      let tx : List (TxOut Unit) := (splitOnChar outs ',').map fun v => { sat := nat! v, spk := .htlc }
+      let vs := (ScopeData.htlcClaimsOn m (nat! f) (nat! t) tx).filterMap fun o => match o with | .commit v => some v | _ => none
+      (m, if vs.isEmpty then "-" else ",".intercalate ((sortTriples (vs.map fun v => (0, 0, v))).map fun t => toString t.2.2))
+    | _ => (m, "bad-op")
 
 end Ldk.Driver
